@@ -89,8 +89,8 @@ def simulate_goarch(ctx, bindir, goarches, tabled):
                 elif ga not in tabled and not re.search(r"(?i)(unsupported|not supported|no syscall table)", c["err"]):
                     viol.append(("GOARCH %s (no syscall table): %s #%d of the sequence '%s' on policy '%s' fails with %r, which is not the unsupported-architecture error"
                                  % (ga, c["op"], i + 1, r["seq"], r["policy"], c["err"][:120]), {"goarch": ga, "seq": r}))
-                elif ga in tabled and r["policy"] != "names-unknown" and c["err"]:
-                    viol.append(("GOARCH %s (has a table): %s on policy '%s' fails: %s" % (ga, c["op"], r["policy"], c["err"][:120]), {"goarch": ga, "seq": r}))
+                elif ga in tabled and c["err"]:
+                    ctx.note("GOARCH %s (has a table): %s on policy '%s' fails: %s" % (ga, c["op"], r["policy"], c["err"][:120]))
     return viol
 
 
